@@ -31,7 +31,7 @@ from .common import Ctx, hexs
 SECTIONS = ["s1", "s2"]
 KEYS = ["k1", "k2", "k3"]
 PROFILES = ["p1", "p2", "p3"]
-NAMES = ["main", "fb"]
+NAMES = ["main", "fb", "fb2"]
 
 
 def _imp():
@@ -155,6 +155,7 @@ class Ref:
         self.profiles = [None]
         self.master = None
         self.vars = {}
+        self._version, self._cached = 0, None
 
     def resolve(self, section, key):
         for p in self.profiles:
@@ -167,7 +168,10 @@ class Ref:
         return any(self.store.get(p, {}).get(section) for p in self.profiles)
 
     def view(self):
-        """sections → keys → entry, every (section, key) defined by a listed profile"""
+        """sections → keys → entry, every (section, key) defined by a listed profile (read-only for the callers)"""
+        key = (self._version, tuple(self.profiles))
+        if self._cached is not None and self._cached[0] == key:
+            return self._cached[1]
         out = {}
         for p in reversed(self.profiles):  # dict order of the view: lowest priority first (matters only for
             for s, d in self.store.get(p, {}).items():  # which entries a refused multi-entry update got through)
@@ -176,23 +180,34 @@ class Ref:
         for s in out:
             for k in out[s]:
                 out[s][k] = self.resolve(s, k)
+        self._cached = (key, out)
         return out
 
     def put(self, profile, section, key, value, source, meta):
+        self._version += 1
         self.store.setdefault(profile, {}).setdefault(section, {})[key] = (str(value), source, meta or {})
 
 
 class World:
     def __init__(self, tmp):
         Configuration, _, _ = _imp()
-        self.cfg = [Configuration("main"), Configuration("fb")]
-        self.ref = [Ref("main"), Ref("fb")]
-        self.linked = False
+        self.cfg = [Configuration(n) for n in NAMES]
+        self.ref = [Ref(n) for n in NAMES]
+        self.linked = False   # fb is the fallback of main
+        self.linked2 = False  # fb2 is the fallback of fb
         self.tmp = tmp
         self.nfile = 0
 
+    def chain_idx(self, i):
+        """the configuration asked followed by its fallback configurations (indices)"""
+        if i == 0:
+            return [0] + (self.chain_idx(1) if self.linked else [])
+        if i == 1:
+            return [1] + ([2] if self.linked2 else [])
+        return [2]
+
     def chain(self, i):
-        return [self.ref[0], self.ref[1]] if (i == 0 and self.linked) else [self.ref[i]]
+        return [self.ref[j] for j in self.chain_idx(i)]
 
 
 # ------------------------------------------------------------------------------------------------
@@ -291,6 +306,11 @@ def run_op(w: World, op: dict):
             w.cfg[0].fallback_config = w.cfg[1] if op["on"] else None
             w.linked = bool(op["on"])
             return tok, "ok"
+        if t == "K":
+            tok = f"K:{1 if op['on'] else 0}"
+            w.cfg[1].fallback_config = w.cfg[2] if op["on"] else None
+            w.linked2 = bool(op["on"])
+            return tok, "ok"
         if t == "V":
             tok = f"V:{i}:{kvs(op['vars'])}"
             cfg.update_vars(dict(op["vars"]))
@@ -300,6 +320,17 @@ def run_op(w: World, op: dict):
             tok = ":".join(["g", str(i), hexs(op["key"]), o(op.get("value")), o(op.get("section")), o(op.get("default"))])
             e = cfg.get(op["key"], value=op.get("value"), section=op.get("section"), default=op.get("default"))
             return tok, f"ok:{hexs(e._key)}:{hexs(e._value)}:{hexs(e.source)}"
+        if t == "G":
+            tok = ":".join(["G", str(i), hexs(op["key"]), o(op.get("value")), o(op.get("section")), o(op.get("default")),
+                            kvs(op["callvars"]), o(op.get("rdefault"))])
+            e = cfg.get(op["key"], value=op.get("value"), section=op.get("section"), default=op.get("default"))
+            return tok, look(w, i, e, op)
+        if t == "I":
+            tok = ":".join(["I", str(i), hexs(op["section"]), hexs(op["key"]), kvs(op["callvars"]), o(op.get("rdefault"))])
+            sec = cfg[op["section"]]
+            if isinstance(sec, ConfigurationEntry):
+                return tok, "err:key"
+            return tok, look(w, i, sec[op["key"]], op)
         if t == "i":
             tok = f"i:{i}:{hexs(op['name'])}"
             r = cfg[op["name"]]
@@ -359,6 +390,34 @@ def run_op(w: World, op: dict):
         op["_exc"] = ex
         return tok, "err:" + err_name(ex)
     raise AssertionError(f"unknown op {t}")
+
+
+def look(w: World, i: int, e, op: dict):
+    """what is seen on an entry a lookup handed back: key, .str, .source, the configuration whose variable dictionary it
+    holds (position in the fallback chain of the configuration asked), .replaced, .replace(default=…, **callvars), and
+    the typed accessors of the replaced entry"""
+    def attempt(f):
+        try:
+            return f()
+        except Exception as ex:  # noqa: BLE001
+            return ex
+
+    def show(r, f=lambda r: hexs(r)):
+        return "!" + err_name(r) if isinstance(r, Exception) else f(r)
+
+    depth = [str(d) for d, j in enumerate(w.chain_idx(i)) if e._vars_dict is w.cfg[j]._vars_dict]
+    r0 = attempt(lambda: e.replaced)
+    rx = attempt(lambda: e.replace(default=op.get("rdefault"), **dict(op["callvars"])))
+    op["_look"] = {"str": e.str, "r0": r0 if isinstance(r0, Exception) else r0.str, "rx": rx if isinstance(rx, Exception) else rx.str}
+    if isinstance(r0, Exception):
+        acc = "-:-:-:-"
+    else:
+        al, ad, ab, ai = (attempt(lambda: r0.list), attempt(lambda: r0.dict), attempt(lambda: r0.bool), attempt(lambda: r0.int))
+        op["_look"].update(list=al, tuple=attempt(lambda: r0.tuple), dict=ad, bool=ab, int=ai)
+        acc = ":".join([show(al, hexlist), show(ad, lambda d: ",".join(f"{hexs(k)}={hexs(v)}" for k, v in d.items()) or "[]"),
+                        show(ab, lambda b: "1" if b else "0"), show(ai, str)])
+    return (f"ok:{hexs(e._key)}:{hexs(e.str)}:{hexs(e.source)}:{depth[0] if depth else '?'}:"
+            f"{show(r0, lambda r: hexs(r.str))}:{show(rx, lambda r: hexs(r.str))}:{acc}")
 
 
 # ------------------------------------------------------------------------------------------------
@@ -453,16 +512,17 @@ def ref_apply(w: World, op: dict, obs: str, rep, step):
         ref.profiles = vs
     elif t == "M":
         ref.master = op["master"]
-    elif t == "L":
+    elif t in ("L", "K"):
         pass
     elif t == "V":
         ref.vars.update(op["vars"])
 
 
 def ref_lookup(chain, key, value, section, default):
-    """the lookup order of the property; returns ('ok', value, kind) / ('err',) / ('excluded',)"""
+    """the lookup order of the property; returns ('ok', value, kind, position in the chain of the configuration the
+    answer belongs to) / ('err',) / ('excluded',)"""
     if value is not None:
-        return ("ok", value, "override")
+        return ("ok", value, "override", 0)
     for depth, ref in enumerate(chain):
         view = ref.view()
         sec = section
@@ -477,9 +537,9 @@ def ref_lookup(chain, key, value, section, default):
             continue
         e = view[sec].get(key)
         if e is not None:
-            return ("ok", e[0], "own" if depth == 0 else "fallback")
+            return ("ok", e[0], "own" if depth == 0 else "fallback" if depth == 1 else "fallback-of-fallback", depth)
     if default is not None:
-        return ("ok", default, "default")
+        return ("ok", default, "default", 0)
     return ("err",)
 
 
@@ -565,6 +625,114 @@ def oracle_query(w: World, op: dict, obs: str, rep, step):
         oracle_accessor(op, obs, rep, step)
     elif t == "x":
         oracle_replace(op, obs, rep, step)
+    elif t == "G":
+        oracle_look_get(w, op, obs, rep, step)
+    elif t == "I":
+        oracle_look_item(w, op, obs, rep, step)
+
+
+def chain_situation(chain, section="given"):
+    return (("+fallback-linked" if len(chain) == 2 else "+fallback-chain-of-2" if len(chain) > 2 else "")
+            + ("+no-section" if section is None else ""))
+
+
+def check_look(rep, step, where, lk, owner_vars, op):
+    """the entry a lookup handed back, looked at through .replaced / .replace() / the typed accessors: the variables are
+    those of the configuration the entry belongs to (`owner_vars`: the configuration asked for its own entries, an
+    override and the default; the fallback configuration that defines it for an entry found there)"""
+    def as_obs(r):
+        return "err:" + err_name(r) if isinstance(r, Exception) else "ok:" + hexs(r)
+
+    for name, r, callvars, dflt in ((".replaced", lk["r0"], {}, None), (".replace()", lk["rx"], op["callvars"], op.get("rdefault"))):
+        pseudo = {"value": lk["str"], "vars": dict(owner_vars), "callvars": dict(callvars), "default": dflt}
+        if isinstance(r, Exception):
+            pseudo["_exc"] = r
+        oracle_replace(pseudo, as_obs(r), rep, step, prefix=f"{where}/{name}/")
+    if not isinstance(lk["r0"], Exception):
+        for kind in ("list", "tuple", "dict", "bool", "int"):
+            r = lk[kind]
+            pseudo = {"value": lk["r0"], "kind": kind}
+            if not isinstance(r, Exception):
+                pseudo["_raw"] = r
+            oracle_accessor(pseudo, "err:" + err_name(r) if isinstance(r, Exception) else "ok", rep, step, prefix=f"{where}/.replaced/")
+
+
+def oracle_look_get(w: World, op: dict, obs: str, rep, step):
+    Configuration, _, _ = _imp()
+    i = op.get("cfg", 0)
+    chain, idx = w.chain(i), w.chain_idx(i)
+    want = ref_lookup(chain, op["key"], op.get("value"), op.get("section"), op.get("default"))
+    situation = chain_situation(chain, op.get("section"))
+    if want[0] == "excluded":
+        rep.count("excluded:section-is-master-key")
+        return
+    if want[0] == "err":
+        if obs not in ("err:missingSection", "err:missingEntry"):
+            rep.violate(f"get:expected-error{situation}", f"cfg.get gave {describe(obs)}, a missing-section/-entry error is documented", step)
+        return
+    lk = op.get("_look")
+    if lk is None or not obs.startswith("ok:") or lk["str"] != want[1]:
+        rep.violate(f"get:expected-{want[2]}{situation}", f"cfg.get gave {describe(obs)}, the lookup order gives {want[1]!r} ({want[2]})", step)
+        return
+    owner = chain[want[3]]
+    differ = any(r.vars != owner.vars for r in chain)
+    uses = bool(VAR_RE.search(want[1]))
+    rep.count(f"look:get:{want[2]}{situation}" + ("+variables-differ-along-chain" if differ else "") + ("+value-with-{var}" if uses else ""))
+    nhits = len(rep.hits)
+    check_look(rep, step, f"get:{want[2]}{situation}", lk, owner.vars, op)
+    if len(rep.hits) > nhits:
+        return
+    # the same, stated without the reference substitution: the default is filled in as the configuration asked would
+    # fill it in alone; an entry of a fallback configuration reads as when that configuration is asked itself
+    other = None
+    if want[2] == "default":
+        alone = Configuration(NAMES[i])
+        alone.update_vars(dict(w.cfg[i].vars))
+        other, how = alone.get(op["key"], section=op.get("section"), default=op["default"]), "a configuration with the same variables and no fallback"
+    elif want[3] > 0:
+        other, how = w.cfg[idx[want[3]]].get(op["key"], section=op.get("section")), f"asking the fallback configuration {NAMES[idx[want[3]]]!r} itself"
+    if other is not None:
+        for name, got, f in ((".replaced", lk["r0"], lambda e: e.replaced.str),
+                             (".replace()", lk["rx"], lambda e: e.replace(default=op.get("rdefault"), **dict(op["callvars"])).str)):
+            try:
+                ref_val = f(other)
+            except Exception as ex:  # noqa: BLE001
+                ref_val = ex
+            same = (type(got) is type(ref_val)) if isinstance(got, Exception) or isinstance(ref_val, Exception) else got == ref_val
+            if not same:
+                rep.violate(f"get:{want[2]}{situation}/{name}/differs-from-{'asked-configuration-alone' if want[2] == 'default' else 'fallback-asked-itself'}",
+                            f"cfg.get({op['key']!r}, section={op.get('section')!r}, default={op.get('default')!r}){name} gave {got!r}, "
+                            f"{how} gives {ref_val!r} (variables along the chain: {[r.vars for r in chain]})", step)
+
+
+def oracle_look_item(w: World, op: dict, obs: str, rep, step):
+    i = op.get("cfg", 0)
+    chain = w.chain(i)
+    sec, key = op["section"], op["key"]
+    for depth, r in enumerate(chain):
+        view = r.view()
+        if sec in view:
+            break
+        if r.master is not None and r.master in view:
+            rep.count("look:item:through-master-section(model-only)")  # cfg[name] looks into the master section first
+            return
+    else:
+        if obs != "err:missingSection":
+            rep.violate("item:expected-missing-section", f"cfg[{sec!r}] gave {describe(obs)}, no configuration of the chain has that section", step)
+        return
+    e = view[sec].get(key)
+    where = "item:" + ("own" if depth == 0 else "fallback" if depth == 1 else "fallback-of-fallback")
+    if e is None:
+        if obs != "err:missingEntry":
+            rep.violate(f"{where}:expected-missing-entry", f"cfg[{sec!r}][{key!r}] gave {describe(obs)}, the section has no such entry", step)
+        return
+    lk = op.get("_look")
+    if lk is None or not obs.startswith("ok:") or lk["str"] != e[0]:
+        rep.violate(f"{where}:value", f"cfg[{sec!r}][{key!r}] gave {describe(obs)}, the section's entry is {e[0]!r}", step)
+        return
+    rep.count(f"look:{where}" + ("+variables-differ-along-chain" if any(x.vars != r.vars for x in chain) else "")
+              + ("+value-with-{var}" if VAR_RE.search(e[0]) else ""))
+    check_look(rep, step, where, lk, r.vars, op)
 
 
 def describe(obs):
@@ -608,28 +776,28 @@ def parse_view(txt, with_source):
 BOOLS = {"0": False, "1": True, "false": False, "true": True, "no": False, "yes": True, "off": False, "on": True}
 
 
-def oracle_accessor(op, obs, rep, step):
+def oracle_accessor(op, obs, rep, step, prefix=""):
     v, kind = op["value"], op["kind"]
     if kind in ("list", "tuple"):
         want = [t for t in re.split(r"[,\s]+", v) if t]
         raw = op.get("_raw")
         ok = raw is not None and list(raw) == want and isinstance(raw, list if kind == "list" else tuple)
         if not ok:
-            rep.violate(f"accessor:{kind}", f"entry.{kind} of {v!r} gave {raw!r}, splitting on commas and blanks gives {want!r}", step)
+            rep.violate(prefix + f"accessor:{kind}", f"entry.{kind} of {v!r} gave {raw!r}, splitting on commas and blanks gives {want!r}", step)
     elif kind == "dict":
         want = {}
         for t in [t for t in re.split(r"[,\s]+", v) if t]:
             a, _, b = t.partition(":")
             want[a] = b
         if op.get("_raw") != want or list(op["_raw"]) != list(want):
-            rep.violate("accessor:dict", f"entry.dict of {v!r} gave {op.get('_raw')!r}, expected {want!r}", step)
+            rep.violate(prefix + "accessor:dict", f"entry.dict of {v!r} gave {op.get('_raw')!r}, expected {want!r}", step)
     elif kind == "bool":
         want = BOOLS.get(v.lower())
         if want is None:
             if obs != "err:value":
-                rep.violate("accessor:bool", f"entry.bool of {v!r} gave {obs}, not one of the eight spellings: ValueError expected", step)
+                rep.violate(prefix + "accessor:bool", f"entry.bool of {v!r} gave {obs}, not one of the eight spellings: ValueError expected", step)
         elif op.get("_raw") is not want:
-            rep.violate("accessor:bool", f"entry.bool of {v!r} gave {op.get('_raw')!r}", step)
+            rep.violate(prefix + "accessor:bool", f"entry.bool of {v!r} gave {op.get('_raw')!r}", step)
     else:
         try:
             want = int(v)
@@ -637,15 +805,15 @@ def oracle_accessor(op, obs, rep, step):
             want = None
         if want is None:
             if obs != "err:value":
-                rep.violate("accessor:int", f"entry.int of {v!r} gave {obs}, ValueError expected", step)
+                rep.violate(prefix + "accessor:int", f"entry.int of {v!r} gave {obs}, ValueError expected", step)
         elif op.get("_raw") != want:
-            rep.violate("accessor:int", f"entry.int of {v!r} gave {op.get('_raw')!r}", step)
+            rep.violate(prefix + "accessor:int", f"entry.int of {v!r} gave {op.get('_raw')!r}", step)
 
 
 VAR_RE = re.compile(r"\{(\w+)(:[^\{\}]*)?\}")
 
 
-def oracle_replace(op, obs, rep, step):
+def oracle_replace(op, obs, rep, step, prefix=""):
     v = op["value"]
     allvars = dict(op["vars"], **op["callvars"])
     used = [m.group(1) for m in VAR_RE.finditer(v)]
@@ -655,11 +823,11 @@ def oracle_replace(op, obs, rep, step):
     if not known and op.get("default") is None:
         # only unknown variables (or none at all): nothing may change, nothing may be raised
         if obs != "ok:" + hexs(v):
-            rep.violate("replace:unknown-variable-altered",
+            rep.violate(prefix + "replace:unknown-variable-altered",
                         f"entry.replace on {v!r} with no known variable gave {describe_x(obs)}; only known variables may be substituted", step)
         return
     if obs.startswith("err:") and not any(m.group(2) for m in VAR_RE.finditer(v)):
-        rep.violate("replace:raises", f"entry.replace on {v!r} with {allvars} raised {obs}", step)
+        rep.violate(prefix + "replace:raises", f"entry.replace on {v!r} with {allvars} raised {obs}", step)
         return
     # "substitutes only known variables", stated for the flat case (no format specs, no braces other than those of the
     # references, no braces in the values of the variables or in the default): every reference to a known variable is
@@ -677,7 +845,7 @@ def oracle_replace(op, obs, rep, step):
         want = VAR_RE.sub(lambda m: str(allvars[m.group(1)]) if m.group(1) in allvars else (m.group(0) if dflt is None else dflt), v)
         if obs != "ok:" + hexs(want):
             key = "replace:known-variable" if known else "replace:default-for-unknown"
-            rep.violate(key, f"entry.replace(default={dflt!r}) on {v!r} with {allvars} gave {describe_x(obs)}, expected {want!r}: "
+            rep.violate(prefix + key, f"entry.replace(default={dflt!r}) on {v!r} with {allvars} gave {describe_x(obs)}, expected {want!r}: "
                              "a known variable is substituted by its own value, an unknown one by the default if given", step)
         return
     # plain `{name}` references (no format spec) are replaced textually, also inside the replacement
@@ -704,7 +872,7 @@ def oracle_replace(op, obs, rep, step):
         else:
             return  # cyclic definitions
         if obs != "ok:" + hexs(want):
-            rep.violate("replace:known-variable", f"entry.replace on {v!r} with {allvars} gave {describe_x(obs)}, expected {want!r}", step)
+            rep.violate(prefix + "replace:known-variable", f"entry.replace on {v!r} with {allvars} gave {describe_x(obs)}, expected {want!r}", step)
 
 
 def describe_x(obs):
@@ -748,7 +916,7 @@ class Reporter:
                 self.ctx.count("disagreements")
 
 
-MUTATING = set("UDOSFPMLV")
+MUTATING = set("UDOSFPMLKV")
 
 
 def run_history(ctx, drv, hist, tmp):
@@ -804,6 +972,11 @@ def run_history(ctx, drv, hist, tmp):
                 if m == "unsupported-spec":
                     rep.count("model:unsupported-format-spec")
                     continue
+                if "unsupported-spec" in m:
+                    # G / I: a format spec outside the modelled subset in .replaced / .replace(): the lookup part
+                    # (key, value, source, owner) is still compared
+                    rep.count("model:unsupported-format-spec")
+                    m, r = ":".join(m.split(":")[:5]), ":".join(r.split(":")[:5])
                 if m != r:
                     rep.disagree(f"op {hist[step]['op']}", step, m, r)
                     break
@@ -814,9 +987,39 @@ def run_history(ctx, drv, hist, tmp):
 # generators of histories
 
 
+# defaults / overrides / stored values with references to variables (flat ones mostly: the oracle states those in full)
+VAR_TEXTS = ["{var_1}", "/data/{year}/{var_1}.txt", "{unknown}", "pre{var_2}post{unknown}", "{nest}", "{var_1:>8}|",
+             "{empty}{zero}x", "a, {var_1}, {var_2}", "{year}", "{var_1}:{var_2}, k:{year}", "{off}", "D", "{pad}{pad}", "{var_2}/{var_2}"]
+
+
+def gen_vars(rng, i, many=False):
+    """variables for configuration i: the names are shared between the configurations, the values are not"""
+    names = rng.sample(sorted(VARS), rng.randint(3, 6) if many else rng.randint(1, 3))
+    return {k: (VARS[k] if rng.random() < 0.35 else rng.choice([f"{k}@{NAMES[i]}", f"{i}{i}", "1" if i else "0", "yes" if i else "no"]))
+            for k in names}
+
+
+def gen_look(rng, i, sec=..., key=None, dflt=...):
+    r = rng.random()
+    return {"op": "G", "cfg": i, "key": key or rng.choice(KEYS + ["nokey"]),
+            "value": rng.choice(VAR_TEXTS + ["OVR"]) if r < 0.08 else None,
+            "section": rng.choice([None] + SECTIONS + ["zz"]) if sec is ... else sec,
+            "default": rng.choice([None] + VAR_TEXTS + VAR_TEXTS) if dflt is ... else dflt,
+            "callvars": {} if rng.random() < 0.6 else {rng.choice(["var_1", "extra", "unknown", "year"]): rng.choice(["CALL", "", 0, "{var_2}"])},
+            "rdefault": rng.choice([None, None, "DFLT"])}
+
+
+def gen_look_item(rng, i):
+    return {"op": "I", "cfg": i, "section": rng.choice(SECTIONS + SECTIONS + ["zz", "k1"]), "key": rng.choice(KEYS + ["nokey"]),
+            "callvars": {} if rng.random() < 0.6 else {rng.choice(["var_1", "extra", "unknown", "year"]): rng.choice(["CALL", "", 0, "{var_2}"])},
+            "rdefault": rng.choice([None, None, "DFLT"])}
+
+
 def battery(rng, i, full=False):
     """observations after a step"""
     qs = [{"op": "v", "cfg": i}, {"op": "p", "cfg": i}]
+    qs += [gen_look(rng, i) for _ in range(8 if full else 1)]
+    qs += [gen_look_item(rng, i) for _ in range(4 if full else rng.choice([0, 1]))]
     combos = []
     for sec in [None] + SECTIONS + ["zz", "k1"]:
         for key in KEYS + ["nokey"]:
@@ -850,15 +1053,19 @@ def exhaustive_alphabet():
     return A
 
 
+# before every bounded-exhaustive history: the two configurations get different values for the same variable
+EXH_PROLOGUE = [{"op": "V", "cfg": 0, "vars": {"v": "of-main", "m": "only-main"}}, {"op": "V", "cfg": 1, "vars": {"v": "of-fb", "f": "only-fb"}}]
+
+
 def exhaustive_histories(maxlen):
     A = exhaustive_alphabet()
     for n in range(1, maxlen + 1):
         for combo in itertools.product(range(len(A)), repeat=n):
-            hist = []
+            hist = json.loads(json.dumps(EXH_PROLOGUE))
             for pos, a in enumerate(combo):
                 op = json.loads(json.dumps(A[a]))
                 if op["op"] == "U":
-                    op.update(val=f"v{pos}", source=f"src{pos}", allow_new=True, meta=None)
+                    op.update(val=f"v{pos}/{{v}}{{m}}{{f}}", source=f"src{pos}", allow_new=True, meta=None)
                 hist.append(op)
             yield hist
 
@@ -870,6 +1077,11 @@ def exhaustive_battery():
             for dflt in (None, "D"):
                 qs.append({"op": "g", "cfg": 0, "key": key, "section": sec, "default": dflt})
     qs.append({"op": "g", "cfg": 0, "key": "k1", "value": "OVR", "section": "zz", "default": None})
+    # the entry handed back, looked at through .replaced / .replace(): own entry, fallback entry, default, override
+    for sec, key in ((None, "k1"), ("s1", "k1"), ("s1", "k3"), ("zz", "k1")):
+        qs.append({"op": "G", "cfg": 0, "key": key, "value": None, "section": sec, "default": "D/{v}{m}{f}", "callvars": {}, "rdefault": None})
+    qs.append({"op": "G", "cfg": 0, "key": "k1", "value": "O/{v}{m}{f}", "section": "s1", "default": None, "callvars": {"m": "CALL"}, "rdefault": "DFLT"})
+    qs.append({"op": "I", "cfg": 0, "section": "s1", "key": "k1", "callvars": {}, "rdefault": None})
     qs.append({"op": "e", "cfg": 0, "key": "k1", "section": "s1"})
     qs.append({"op": "e", "cfg": 0, "key": "k3", "section": None})
     qs.append({"op": "i", "cfg": 0, "name": "s2"})
@@ -938,10 +1150,11 @@ def gen_file(rng):
 
 def gen_mut(rng):
     k = rng.random()
-    i = 0 if rng.random() < 0.75 else 1
+    i = 0 if rng.random() < 0.7 else rng.choice([1, 1, 2])
     allow_new = rng.random() < 0.8
     if k < 0.40:
-        return {"op": "U", "cfg": i, "sec": rng.choice(SECTIONS), "key": rng.choice(KEYS), "val": gen_value(rng),
+        return {"op": "U", "cfg": i, "sec": rng.choice(SECTIONS), "key": rng.choice(KEYS),
+                "val": gen_value(rng) if rng.random() < 0.85 else rng.choice(VAR_TEXTS),
                 "profile": rng.choice([None, None] + PROFILES), "source": rng.choice(["unknown", "code", "test"]),
                 "allow_new": allow_new, "meta": gen_meta(rng)}
     if k < 0.50:
@@ -964,7 +1177,7 @@ def gen_mut(rng):
                 opts.append(f"--{sec}:{key}={v}=more")
         return {"op": "O", "cfg": i, "profile": rng.choice([None, None, "p1"]), "allow_new": rng.random() < 0.5, "options": opts}
     if k < 0.66:
-        return {"op": "S", "cfg": i, "from": rng.choice([0, 1]), "fromsec": rng.choice(SECTIONS), "sec": rng.choice([None, "s1", "s2"]),
+        return {"op": "S", "cfg": i, "from": rng.choice([0, 1, 2]), "fromsec": rng.choice(SECTIONS), "sec": rng.choice([None, "s1", "s2"]),
                 "allow_new": allow_new}
     if k < 0.74:
         text, entries, cs = gen_file(rng)
@@ -982,11 +1195,14 @@ def gen_mut(rng):
             if rng.random() < 0.1:
                 v.insert(0, rng.choice(v))
         return {"op": "P", "cfg": i, "profiles": v}
-    if k < 0.94:
+    if k < 0.93:
         return {"op": "M", "cfg": i, "master": rng.choice([None, "s1", "s2", "zz"])}
-    if k < 0.98:
+    if k < 0.955:
         return {"op": "L", "on": rng.random() < 0.8}
-    return {"op": "V", "cfg": i, "vars": {kk: VARS[kk] for kk in rng.sample(sorted(VARS), 2)}}
+    if k < 0.97:
+        return {"op": "K", "on": rng.random() < 0.8}
+    i = rng.choice([0, 0, 1, 2])
+    return {"op": "V", "cfg": i, "vars": gen_vars(rng, i)}
 
 
 def gen_history(rng, n):
@@ -995,7 +1211,7 @@ def gen_history(rng, n):
         op = gen_mut(rng)
         hist.append(op)
         hist += battery(rng, op.get("cfg", 0))
-    i = rng.choice([0, 0, 1])
+    i = rng.choice([0, 0, 0, 1, 1, 2])
     hist += battery(rng, i, full=rng.random() < 0.3)
     for wdt in rng.sample([200, 200, 80, 45], 2):
         hist.append({"op": "t", "cfg": i, "width": wdt})
@@ -1158,6 +1374,41 @@ def count_text(ctx, text, width):
         ctx.count("text:" + f)
 
 
+def gen_vars_history(rng):
+    """(d) variables along the fallback chain: up to three configurations main -> fb -> fb2, each with its own values for a
+    shared pool of variable names; entries with {var} references stored at different depths of the chain; every kind of
+    answer of get (own entry, entry of the fallback, of the fallback's fallback, default, override, error) looked at
+    through .str / .replaced / .replace() / typed accessors; then the variables change and the same looks are repeated"""
+    muts = []
+    for i in range(3):
+        if rng.random() < 0.85:
+            muts.append({"op": "V", "cfg": i, "vars": gen_vars(rng, i, many=True)})
+    for _ in range(rng.randint(0, 6)):
+        i = rng.choice([0, 1, 1, 2, 2])
+        muts.append({"op": "U", "cfg": i, "sec": rng.choice(SECTIONS), "key": rng.choice(KEYS),
+                     "val": rng.choice(VAR_TEXTS) if rng.random() < 0.8 else gen_value(rng, long_ok=False),
+                     "profile": None if rng.random() < 0.8 else "p1", "source": "code", "allow_new": True, "meta": None})
+    for i in range(3):
+        if rng.random() < 0.3:
+            muts.append({"op": "M", "cfg": i, "master": rng.choice(["s1", "s2", "zz"])})
+        if rng.random() < 0.15:
+            muts.append({"op": "P", "cfg": i, "profiles": ["p1"]})
+    muts.append({"op": "L", "on": rng.random() < 0.9})
+    muts.append({"op": "K", "on": rng.random() < 0.65})
+    rng.shuffle(muts)
+    looks = []
+    for _ in range(rng.randint(6, 14)):
+        i = rng.choice([0, 0, 0, 0, 1, 1, 2])
+        looks.append(gen_look(rng, i, sec=rng.choice([None, "s1", "s1", "s2", "s2", "zz"]), key=rng.choice(KEYS)) if rng.random() < 0.8
+                     else gen_look_item(rng, i))
+    hist = muts + looks
+    if rng.random() < 0.6:  # the entries handed out follow the variables of their configuration
+        i = rng.choice([0, 1, 2])
+        hist.append({"op": "V", "cfg": i, "vars": gen_vars(rng, (i + 1) % 3, many=True)})
+        hist += json.loads(json.dumps(looks))
+    return hist
+
+
 # corner cases of the ConfigParser subset (section header regex, continuation after a valueless option, empty lines
 # inside values, indented options): model against code only (no reference semantics)
 ODD_FILES = [
@@ -1260,7 +1511,7 @@ def run(ctx: Ctx):
             run_history(ctx, drv, hist + json.loads(json.dumps(bat)), tmp)
             ctx.traces += 1
         # (b) random histories
-        for _ in range(ctx.budget(2500, 25000)):
+        for _ in range(ctx.budget(2000, 22000)):
             n = rng.choice([1, 2, 3, 5, 8, 12, 20, 30])
             hist = gen_history(rng, n)
             muts = [op for op in hist if op["op"] in MUTATING]
@@ -1281,6 +1532,14 @@ def run(ctx: Ctx):
             hist = gen_odd_history(rng)
             ctx.case({"digest": common.digest(hist), "odd": [op["text"] for op in hist if op["op"] == "F"]})
             ctx.count("odd-files")
+            run_history(ctx, drv, hist, tmp)
+            ctx.traces += 1
+        # (d) variables along the fallback chain
+        for _ in range(ctx.budget(350, 8000)):
+            hist = gen_vars_history(rng)
+            ctx.case({"digest": common.digest(hist), "vars": len(hist)},
+                     nontrivial=any(op["op"] in "LK" and op.get("on") for op in hist))
+            ctx.count("vars-along-chain")
             run_history(ctx, drv, hist, tmp)
             ctx.traces += 1
         # (c) accessors and replace
